@@ -245,7 +245,7 @@ def _viol_expand(chk, sp, crash, r, via_prefix=""):
     chk.violation(
         _desc(sp.cname, sp.cfg, f"{via_prefix}{c[0]}#{c[1]}:{c[2]}:{c[3]}", ["recovery"], {"had_checkpoint": bool(via_prefix)}),
         f"{sp.cname}: run/resume [{via_prefix}{c[0]}#{c[1]}:{c[2]}:{c[3]}] failed before reaching the crash point: {r}",
-        replay={"config": sp.cname, "path": via_prefix, "crash": list(c)},
+        replay={"config": sp.cname, "path": via_prefix, "crash": list(c), "seed": sp.cfg.get("rot", 0)},
     )
 
 
@@ -335,10 +335,10 @@ def explore_all(chk, spaces, tier):
         st = sp.states[k]
         cname, cfg = sp.cname, sp.cfg
         if is_timeout(r):
-            chk.violation(_desc(cname, cfg, st["via"], ["recovery"], {}), f"{cname}: recovery after [{st['via']}] does not terminate", replay={"config": cname, "via": st["via"]})
+            chk.violation(_desc(cname, cfg, st["via"], ["recovery"], {}), f"{cname}: recovery after [{st['via']}] does not terminate", replay={"config": cname, "via": st["via"], "seed": cfg.get("rot", 0)})
             continue
         if is_error(r):
-            chk.violation(_desc(cname, cfg, st["via"], ["recovery"], {}), f"{cname}: recovery after [{st['via']}] died: {r['__error__']}", replay={"config": cname, "via": st["via"]})
+            chk.violation(_desc(cname, cfg, st["via"], ["recovery"], {}), f"{cname}: recovery after [{st['via']}] died: {r['__error__']}", replay={"config": cname, "via": st["via"], "seed": cfg.get("rot", 0)})
             continue
         nontrivial = not st["via"].startswith("journal-prefix#0")
         chk.case(
@@ -350,7 +350,7 @@ def explore_all(chk, spaces, tier):
             chk.violation(
                 _desc(cname, cfg, st["via"], r["problems"], r["info"]),
                 f"{cname}: after [{st['via']}] (checkpoint step {r['info'].get('step_done')}): {r['problems'][0]} (+{len(r['problems']) - 1} more)",
-                replay={"config": cname, "via": st["via"]},
+                replay={"config": cname, "via": st["via"], "seed": cfg.get("rot", 0)},
             )
     for sp in spaces:
         chk.states += len(sp.states)
@@ -387,5 +387,51 @@ def run(chk, tier, seed):
 
 
 def replay(payload):
-    print("C10 replay: re-run `./check C10` (states are rebuilt from the journal); case:", payload["replay"])
-    return True
+    """Re-execute one crash path without the explorer: rebuild the journal of the configuration, materialise /
+    re-inject each crash of the path in order, then run the recovery oracle on the final image."""
+    import re
+
+    global _ROOT
+    c = payload["replay"]
+    cname = c["config"]
+    seed = int(c.get("seed", 0))
+    via = c.get("via") or (c.get("path", "") + "{}#{}:{}:{}".format(*c["crash"]) if c.get("crash") else None)
+    if not via:
+        print("nothing to replay in", c)
+        return True
+    cfg = dict(_configs("thorough")[cname], rot=seed)
+    _CFG[cname] = cfg
+    warm()
+    _ROOT = MD.scratch_dir("c10replay")
+    try:
+        ops, rundir = _journal_task(cname)
+        nmol = len(cfg["mols"])
+        _REF[cname] = MD.collect(os.path.join(rundir, "md"), range(nmol))
+        work = os.path.join(_ROOT, "work")
+        os.makedirs(work)
+        for i, el in enumerate(via.split(" -> ")):
+            m = re.match(r"journal-prefix#(\d+)", el)
+            t = re.match(r"torn-write#(\d+)@(\d+)", el)
+            if m or t:
+                n = int((m or t).group(1))
+                files = CR.apply_ops(ops[:n], torn=int(t.group(2)) if t else None)
+                CR.write_image({a: bytes(b) for a, b in files.items()}, work)
+                continue
+            pm = re.match(r"(\w+)#(\d+):(before|after):(hard|soft)", el)
+            crash = (pm.group(1), int(pm.group(2)), pm.group(3), pm.group(4))
+            resume = os.path.exists(os.path.join(work, "md.restart.pt"))
+            status, r = CR.in_fork(CR.crash_child, cfg, work, crash, resume)
+            print(f"  crash {el}: {status} {r}")
+        info, res = CR.recover(work, cfg, nmol)
+        prob = [info["checkpoint_error"]] if info.get("checkpoint_error") else []
+        if res is None:
+            prob.append("recovery impossible")
+        elif res.get("error"):
+            prob.append(f"recovery raised {res['error']}")
+        else:
+            prob += CR.compare_outputs(res, _REF[cname], nmol)
+        for p_ in prob:
+            print("  ", p_)
+        return not prob
+    finally:
+        MD.rm(_ROOT)
